@@ -25,7 +25,7 @@ var stdMethods = []methodInfo{
 	{"Noop", nil}, {"Const", nil}, {"Err", nil}, {"ErrNil", nil}, {"ValErr", []string{"bool"}}, {"EchoInt", []string{"int"}},
 	{"Add", []string{"int", "int"}}, {"EchoStr", []string{"str"}}, {"Not", []string{"bool"}}, {"Sum", []string{"ints"}},
 	{"Raw1", []string{"any"}}, {"RawP", []string{"raw"}}, {"Panic", nil}, {"PanicInt", []string{"int"}}, {"Ctx", []string{"int"}},
-	{"Chan", nil}, {"CodeErr", []string{"int"}}, {"PanicNilMap", nil}, {"PanicDeref", nil}, {"PanicCustom", nil}, {"PanicAbort", nil},
+	{"Chan", nil}, {"CodeErr", []string{"int"}}, {"PanicNilMap", nil}, {"PanicDeref", nil}, {"PanicCustom", nil}, {"PanicAbort", nil}, {"PanicOpaque", nil},
 }
 
 var intPool = []string{"0", "1", "-1", "42", "-0", "9007199254740991", "-9007199254740991", "9223372036854775807", "-9223372036854775808", "123456789"}
@@ -481,7 +481,7 @@ func httpBodiesFamily(seed uint64, tier string, args []string) {
 		`{"jsonrpc":"2.0","id":9,"method":"H.Const"} trailing`,
 		`{"jsonrpc":"2.0","id":9,"method":"H.Const"}{"jsonrpc":"2.0","id":10,"method":"H.Const"}`,
 		`[{"method":"H.Noop"},{"method":"H.Noop"}]`,
-		`{"method":"H.Noop"}`, `{"method":"H.Panic"}`, `{"id":1,"method":"H.PanicAbort"}`, `{"id":"x","method":"H.PanicNilMap"}`, `[{"id":1,"method":"H.PanicDeref"},{"id":2,"method":"H.Const"},{"method":"H.PanicCustom"},{"id":3,"method":"H.PanicCustom"}]`, `{"id":3,"method":"H.Panic"}`, `[{"method":"H.Panic"},{"id":1,"method":"H.Const"}]`,
+		`{"method":"H.Noop"}`, `{"method":"H.Panic"}`, `{"id":1,"method":"H.PanicAbort"}`, `{"id":"x","method":"H.PanicNilMap"}`, `[{"id":1,"method":"H.PanicDeref"},{"id":2,"method":"H.Const"},{"method":"H.PanicCustom"},{"id":3,"method":"H.PanicCustom"}]`, `{"id":3,"method":"H.Panic"}`, `{"id":4,"method":"H.PanicOpaque"}`, `[{"id":5,"method":"H.PanicOpaque"},{"id":6,"method":"H.Const"}]`, `[{"method":"H.Panic"},{"id":1,"method":"H.Const"}]`,
 		`[]`, ``, `   `, `[ ]`, `{}`, `null`, `[null]`, `5`, `"x"`, `[1,2]`, `[[]]`, `{"id":5,"method":7}`, `{"id":[1],"method":7}`,
 		`{"id":1,"method":"H.Const","params":[1,2]}`, `{"id":1,"method":"H.Const","params":{"a":1}}`, `{"id":1,"method":"H.Const","params":"x"}`,
 		`{"id":1,"method":"H.Chan"}`, `{"id":1,"method":"H.CodeErr","params":[5]}`, `{"id":1,"method":"H.EchoInt","params":[7]}`,
